@@ -484,6 +484,11 @@ struct ZSTD_CCtx_s {
 typedef enum { ZSTD_dtlm_fast, ZSTD_dtlm_full } ZSTD_dictTableLoadMethod_e;
 typedef enum { ZSTD_tfp_forCCtx, ZSTD_tfp_forCDict } ZSTD_tableFillPurpose_e;
 
+/* ZSTD_maxDictContentSize() :
+ * nb of bytes, counted from its end, that ZSTD_loadDictionaryContent() keeps of an oversized dictionary.
+ * Whoever indexes the same dictionary on the side (ZSTDMT's long distance matcher) must keep to the same part. */
+U32 ZSTD_maxDictContentSize(const ZSTD_compressionParameters* cParams, ZSTD_tableFillPurpose_e tfp);
+
 typedef enum {
     ZSTD_noDict = 0,
     ZSTD_extDict = 1,
